@@ -631,3 +631,64 @@ Proof.
   - left; reflexivity.
   - constructor; [|constructor]. intros [H|H]; cbn in H; destruct H as [H|[]]; discriminate H.
 Qed.
+
+(* ------------------------------------------------------------------ *)
+(* statements in the form Properties_C61.v quotes                        *)
+
+Lemma acl_shape : mgr_acl_shape_ok = true /\ mgr_regex_lit = mgr_prefix.
+Proof. exact (conj shape_ok lit_is_prefix). Qed.
+
+Lemma access_first_match mgr local pre r post :
+  forallb (fun x => negb (rule_matches mgr local x)) pre = true -> rule_matches mgr local r = true ->
+  access_allowed mgr local (pre ++ r :: post) = r_allow r.
+Proof. intros; apply eval_rules_first; assumption. Qed.
+
+Lemma access_implicit_default mgr local rules :
+  forallb (fun x => negb (rule_matches mgr local x)) rules = true ->
+  access_allowed mgr local rules = match rev rules with r :: _ => negb (r_allow r) | [] => false end.
+Proof. intros; unfold access_allowed; rewrite eval_rules_none by assumption; reflexivity. Qed.
+
+Lemma acl_covers_partial e q :
+  host_ok (e_myhost e) -> no_userinfo q -> q_scheme q <> SOther ->
+  is_internal e q = true -> for_cache_manager q = true ->
+  acl_manager q = true.
+Proof. intros Hh Hn Hs Hi Hf. exact (acl_covers e q Hi Hf Hs (no_userinfo_part q Hn) Hh). Qed.
+
+Lemma deny_manager_refuted :
+  exists e menu pl rest q,
+    host_ok (e_myhost e)
+    /\ is_internal e q = true /\ for_cache_manager q = true /\ acl_manager q = false
+    /\ handle e menu pl (mkRule false [AMgr] :: rest) q = RReport s_menu.
+Proof.
+  exists w_env, w_menu, [], [mkRule true [AAll]], w_bypass.
+  destruct bypass_witness as (H1 & H2 & H3 & H4 & H5 & _).
+  exact (conj H1 (conj H2 (conj H3 (conj H4 H5)))).
+Qed.
+
+Lemma password_exact_refuted :
+  exists e menu pl rules q n e0,
+    first_covering pl n e0 /\ pe_passwd e0 <> kw_none
+    /\ handle e menu pl rules q = RReport n
+    /\ supplied_password (q_auth q) <> pe_passwd e0.
+Proof.
+  exists w_env, w_menu, w_pl, [mkRule true [AAll]], w_nul, s_info, (mkPw s_secret [s_info]).
+  destruct nul_witness as (H1 & H2 & H3 & _). repeat split; try assumption; [discriminate|].
+  rewrite H3. discriminate.
+Qed.
+
+Lemma ex_hypotheses :
+  host_ok (e_myhost w_env) /\ path_ok w_good /\ no_userinfo w_plain /\ no_userinfo w_good /\ uncovered w_pl s_menu.
+Proof. destruct examples as (H1 & H2 & H3 & H4 & _). exact (conj w_host_ok (conj H1 (conj H2 (conj H3 H4)))). Qed.
+
+Lemma ex_outcomes :
+  handle w_env w_menu w_pl [mkRule true [AAll]] w_good = RReport s_info
+  /\ handle w_env w_menu w_pl [mkRule true [AAll]] w_noauth = RAuthReq s_info
+  /\ handle w_env w_menu [] deny_manager_allow_all w_plain = RDenied
+  /\ handle w_env w_menu [mkPw kw_disable [s_menu]] [mkRule true [AAll]]
+       (mkReq MGet SHttp [] w_host 3128 (q_path w_bypass) None) = RNotFound
+  /\ handle w_env w_menu [] [mkRule true [AAll]]
+       (mkReq MGet SHttp [] w_host 3128 (mgr_prefix ++ s_shutdown) (q_auth w_good)) = RNotFound.
+Proof.
+  destruct nul_witness as (_ & _ & _ & H1 & H2). destruct bypass_witness as (_ & _ & _ & _ & _ & H3).
+  destruct examples as (_ & _ & _ & _ & _ & H4 & H5). repeat split; assumption.
+Qed.
